@@ -74,6 +74,80 @@ Proof.
   - rewrite <- E. apply drop_no_dot. exact H.
 Qed.
 
+Lemma drop_lead_skip : forall pat x r,
+  drop_lead pat (String.length x) false (x ++ r) = drop_lead pat 0 false r.
+Proof.
+  induction x as [|c x IH]; intros r; cbn [String.length String.append drop_lead]; [reflexivity | apply IH].
+Qed.
+
+Lemma drop_lead_dotted : forall pat s, dotted_text s = true -> drop_lead pat 0 false s = s.
+Proof.
+  intros pat. induction s as [|c s IH]; intros H; [reflexivity|].
+  unfold dotted_text in H. cbn [all_chars] in H. apply andb_true_iff in H. destruct H as [Hc Hs].
+  cbn [drop_lead andb]. rewrite Hc. cbn [negb]. rewrite (IH Hs). reflexivity.
+Qed.
+
+Lemma strip_lead_prefix : forall m rest,
+  dotted_text rest = true -> strip_lead m ((m ++ ".") ++ rest) = rest.
+Proof.
+  intros m rest H. unfold strip_lead.
+  destruct (m ++ ".")%string as [|c p] eqn:E.
+  - destruct m; discriminate.
+  - change (String c p ++ rest)%string with (String c (p ++ rest)%string).
+    cbn [drop_lead andb].
+    change (String c (p ++ rest)%string) with (String c p ++ rest)%string.
+    rewrite prefix_app. cbn [String.length]. rewrite Nat.sub_succ, Nat.sub_0_r.
+    rewrite drop_lead_skip. apply drop_lead_dotted. exact H.
+Qed.
+
+Lemma drop_lead_no_dot : forall m s ok, has_dot s = false -> drop_lead (m ++ ".") 0 ok s = s.
+Proof.
+  intros m. induction s as [|c s IH]; intros ok H; [reflexivity|].
+  cbn [drop_lead].
+  destruct (String.prefix (m ++ ".") (String c s)) eqn:P.
+  - apply prefix_has_dot in P. congruence.
+  - rewrite andb_false_r. cbn [has_dot] in H. apply orb_false_elim in H. destruct H as [_ H].
+    rewrite (IH _ H). reflexivity.
+Qed.
+
+Lemma strip_lead_no_dot : forall m s, has_dot s = false -> strip_lead m s = s.
+Proof. intros m s H. unfold strip_lead. apply drop_lead_no_dot. exact H. Qed.
+
+Lemma strip_lead_noprefix : forall m s,
+  dotted_text s = true -> String.prefix (m ++ ".") s = false -> strip_lead m s = s.
+Proof.
+  intros m [|c s] H P; [reflexivity|].
+  unfold strip_lead. cbn [drop_lead]. rewrite P. cbn [andb].
+  unfold dotted_text in H. cbn [all_chars] in H. apply andb_true_iff in H. destruct H as [Hc Hs].
+  rewrite Hc. cbn [negb]. rewrite (drop_lead_dotted _ s Hs). reflexivity.
+Qed.
+
+Lemma dotted_text_ident : forall s, is_ident s = true -> dotted_text s = true.
+Proof.
+  intros [|c s] H; [discriminate|].
+  unfold is_ident in H. apply andb_true_iff in H. destruct H as [Hc Hs].
+  unfold dotted_text. cbn [all_chars]. unfold is_word. rewrite Hc. cbn [orb andb].
+  clear Hc. induction s as [|d s IH]; [reflexivity|].
+  cbn [all_chars] in *. apply andb_true_iff in Hs. destruct Hs as [Hd Hs].
+  unfold is_word. rewrite Hd. cbn [orb andb]. apply IH. exact Hs.
+Qed.
+
+Lemma dotted_text_app : forall a b, dotted_text (a ++ b) = dotted_text a && dotted_text b.
+Proof.
+  unfold dotted_text. induction a as [|c a IH]; intros b; cbn [String.append all_chars]; [reflexivity|].
+  rewrite IH, andb_assoc. reflexivity.
+Qed.
+
+Lemma split_dots_qualified : forall m r, has_dot m = false ->
+  split_dots (m ++ "." ++ r) = m :: split_dots r.
+Proof.
+  induction m as [|c m IH]; intros r H.
+  - reflexivity.
+  - cbn [has_dot] in H. apply orb_false_elim in H. destruct H as [Hc Hm].
+    change (String c m ++ "." ++ r)%string with (String c (m ++ "." ++ r)%string).
+    cbn [split_dots]. rewrite Hc. rewrite (IH r Hm). reflexivity.
+Qed.
+
 Lemma head_of_app : forall m r, has_dot m = false -> head_of (m ++ "." ++ r) = m.
 Proof.
   induction m as [|c m IH]; intros r H.
@@ -189,7 +263,7 @@ Section Repaired.
 
   Definition fr_spec (st : list frame) (ref : string) : string * option string :=
     let m := resolve_body true L st ref in
-    (match m with Some mm => replace_all (mm ++ ".") ref | None => ref end, m).
+    (match m with Some mm => strip_name L mm ref | None => ref end, m).
 
   Definition q_spec (st : list frame) (t : key) : key :=
     match t with KStr r => KRef (fst (fr_spec st r)) (snd (fr_spec st r)) | KRef _ _ => t end.
@@ -479,6 +553,11 @@ Section Caller.
     rewrite H1, H2. reflexivity.
   Qed.
 
+  Lemma strip_name_no_dot : forall m s, has_dot s = false -> strip_name L m s = s.
+  Proof.
+    intros m s H. unfold strip_name. destruct (l_strip_lead L); [apply strip_lead_no_dot | apply replace_no_dot]; exact H.
+  Qed.
+
   Lemma fr_spec_caller : forall chain pre c post s g m,
     is_ident s = true ->
     forallb (skipped (l_pkg L)) chain = true -> forallb (skipped (l_pkg L)) pre = true ->
@@ -487,7 +566,7 @@ Section Caller.
   Proof.
     intros chain pre c post s g m Hid Hl Hp Hg Hn Hs. unfold fr_spec.
     rewrite (resolve_body_caller chain pre c post s g m Hid Hl Hp Hg Hn Hs).
-    rewrite (replace_no_dot m s (is_ident_no_dot s Hid)). reflexivity.
+    rewrite (strip_name_no_dot m s (is_ident_no_dot s Hid)). reflexivity.
   Qed.
 
   (* the main statement about a bare name: every history, every stack *)
@@ -509,42 +588,159 @@ Section Caller.
       rewrite Hfr; cbn [fst snd eval_key]; rewrite Hev; reflexivity.
   Qed.
 
-  (* a qualified name: the text before the first dot names the module; inside the guard the rest is
-     evaluated there, whoever calls, whatever ran before *)
+  (* ---- qualified names, for the code with both later repairs (strip only a leading "<module>."; a leading name
+     that the calling module binds is a name of that module) ---- *)
+  Lemma first_unskipped_skip : forall pre r,
+    forallb (skipped (l_pkg L)) pre = true -> first_unskipped (l_pkg L) (pre ++ r) = first_unskipped (l_pkg L) r.
+  Proof.
+    induction pre as [|f pre IH]; intros r H; [reflexivity|].
+    cbn [forallb] in H. apply andb_true_iff in H. destruct H as [Hf Hp].
+    cbn [app first_unskipped]. rewrite Hf. apply IH. exact Hp.
+  Qed.
+
+  Lemma resolve_body_dotted : forall st m rest,
+    is_ident m = true ->
+    resolve_body true L st (m ++ "." ++ rest) = Some (head_module true L st m).
+  Proof.
+    intros st m rest Hid. unfold resolve_body.
+    rewrite has_dot_qualified, (head_of_app m rest (is_ident_no_dot m Hid)), Hid. reflexivity.
+  Qed.
+
+  (* Q1: the calling module does not bind the leading name (or is the module of that name itself): the rest is
+     evaluated in the module the leading name names *)
   Lemma fr_spec_qualified : forall st m rest,
-    is_ident m = true -> replace_all (m ++ ".") rest = rest ->
+    l_strip_lead L = true ->
+    is_ident m = true -> dotted_text rest = true ->
+    head_module true L st m = m ->
     fr_spec L st (m ++ "." ++ rest) = (rest, Some m).
   Proof.
-    intros st m rest Hid Hg. unfold fr_spec, resolve_body.
-    rewrite has_dot_qualified, (head_of_app m rest (is_ident_no_dot m Hid)), Hid. cbn [andb].
-    
-    rewrite str_app_assoc.
-    rewrite replace_all_prefix.
-    - rewrite Hg. reflexivity.
-    - destruct m; discriminate.
+    intros st m rest Hs Hid Hd Hh. unfold fr_spec.
+    rewrite (resolve_body_dotted st m rest Hid), Hh.
+    unfold strip_name. rewrite Hs. rewrite str_app_assoc, (strip_lead_prefix m rest Hd). reflexivity.
+  Qed.
+
+  Lemma head_module_free : forall chain ust m,
+    forallb (skipped (l_pkg L)) chain = true ->
+    (caller_module_binding (l_pkg L) ust m = None \/ caller_module_binding (l_pkg L) ust m = Some m) ->
+    head_module true L (chain ++ ust) m = m.
+  Proof.
+    intros chain ust m Hc H. unfold head_module.
+    destruct (true && l_caller_head L); [|reflexivity].
+    unfold caller_module_binding in *. rewrite (first_unskipped_skip chain ust Hc).
+    destruct H as [H|H]; rewrite H; reflexivity.
+  Qed.
+
+  Definition chains_ok (e : entry) : Prop :=
+    forallb (skipped (l_pkg L)) (l_chain L e) = true /\
+    forallb (skipped (l_pkg L)) (l_chain L EDecodePre) = true.
+
+  Lemma lib_ok_chains : forall e, lib_ok L e = true ->
+    forallb (skipped (l_pkg L)) (l_chain L e) = true /\
+    (e = EDecode -> forallb (skipped (l_pkg L)) (l_chain L EDecodePre) = true).
+  Proof.
+    intros e H. unfold lib_ok in H. apply andb_true_iff in H. destruct H as [H1 H2].
+    split; [exact H1|]. intros ->. exact H2.
   Qed.
 
   Lemma repaired_qualified : forall h e ust m rest,
     match e with ECodecM | ECodecU | ECodec | EForwardref | EDecodePre | ECodecPost => False | _ => True end ->
-    is_ident m = true -> replace_all (m ++ ".") rest = rest ->
+    l_strip_lead L = true ->
+    is_ident m = true -> dotted_text rest = true ->
+    lib_ok L e = true ->
+    (caller_module_binding (l_pkg L) ust m = None \/ caller_module_binding (l_pkg L) ust m = Some m) ->
     warm true W L h (OCall e (RStr (m ++ "." ++ rest)) ust) = one (evaluate W (rest, Some m)).
   Proof.
-    intros h e ust m rest He Hid Hg. rewrite warm_spec.
+    intros h e ust m rest He Hs Hid Hd Hl Hb. rewrite warm_spec.
+    destruct (lib_ok_chains e Hl) as [Hc Hc2].
+    pose proof (fr_spec_qualified (l_chain L e ++ ust) m rest Hs Hid Hd (head_module_free _ ust m Hc Hb)) as Hfr.
     destruct e; try destruct He; cbn [call_spec key_of q_spec probe_spec];
-      rewrite ?(fr_spec_qualified _ m rest Hid Hg); cbn [fst snd eval_key];
-      try reflexivity.
+      try (rewrite (fr_spec_qualified (l_chain L EDecodePre ++ ust) m rest Hs Hid Hd
+                      (head_module_free _ ust m (Hc2 eq_refl) Hb)));
+      rewrite Hfr; cbn [fst snd eval_key]; try reflexivity.
     destruct (evaluate W (rest, Some m)); reflexivity.
   Qed.
 
   Lemma repaired_qualified_name : forall h e ust m n d o,
     match e with ECodecM | ECodecU | ECodec | EForwardref | EDecodePre | ECodecPost => False | _ => True end ->
+    l_strip_lead L = true ->
     is_ident m = true -> is_ident n = true ->
+    lib_ok L e = true ->
+    (caller_module_binding (l_pkg L) ust m = None \/ caller_module_binding (l_pkg L) ust m = Some m) ->
     lookup m (w_modules W) = Some d -> lookup n d = Some o -> not_module o = true ->
     warm true W L h (OCall e (RStr (m ++ "." ++ n)) ust) = ROk [o].
   Proof.
-    intros h e ust m n d o He Hm Hn Hd Ho Hno.
-    rewrite (repaired_qualified h e ust m n He Hm (replace_no_dot m n (is_ident_no_dot n Hn))).
+    intros h e ust m n d o He Hs Hm Hn Hl Hb Hd Ho Hno.
+    rewrite (repaired_qualified h e ust m n He Hs Hm (dotted_text_ident n Hn) Hl Hb).
     rewrite (evaluate_ident n m d o Hn Hd Ho Hno). reflexivity.
+  Qed.
+
+  (* Q2: the calling module binds the leading name: the whole text is an expression of that module *)
+  Lemma head_module_caller : forall chain pre c post m g cm,
+    l_caller_head L = true ->
+    forallb (skipped (l_pkg L)) chain = true -> forallb (skipped (l_pkg L)) pre = true ->
+    skipped (l_pkg L) c = false -> lookup m (f_globals c) = Some g -> f_gname c = Some cm ->
+    head_module true L (chain ++ pre ++ c :: post) m = cm.
+  Proof.
+    intros chain pre c post m g cm Hh Hc Hp Hs Hg Hn. unfold head_module. rewrite Hh. cbn [andb].
+    unfold caller_module_binding.
+    rewrite (first_unskipped_skip chain _ Hc), (first_unskipped_skip pre _ Hp).
+    cbn [first_unskipped]. rewrite Hs, Hg, Hn. reflexivity.
+  Qed.
+
+  Lemma repaired_caller_head : forall h e pre c post m rest g cm,
+    match e with ECodecM | ECodecU | ECodec | EForwardref | EDecodePre | ECodecPost => False | _ => True end ->
+    l_strip_lead L = true -> l_caller_head L = true ->
+    is_ident m = true -> dotted_text rest = true ->
+    lib_ok L e = true -> forallb (skipped (l_pkg L)) pre = true ->
+    skipped (l_pkg L) c = false -> lookup m (f_globals c) = Some g -> f_gname c = Some cm ->
+    String.prefix (cm ++ ".") (m ++ "." ++ rest) = false ->
+    warm true W L h (OCall e (RStr (m ++ "." ++ rest)) (pre ++ c :: post))
+    = one (evaluate W ((m ++ "." ++ rest)%string, Some cm)).
+  Proof.
+    intros h e pre c post m rest g cm He Hs Hh Hid Hd Hl Hp Hsk Hg Hn Hpre. rewrite warm_spec.
+    destruct (lib_ok_chains e Hl) as [Hc Hc2].
+    assert (Hdt : dotted_text (m ++ "." ++ rest) = true).
+    { rewrite dotted_text_app, (dotted_text_ident m Hid). cbn [andb].
+      change ("." ++ rest)%string with (String "."%char rest). unfold dotted_text in *. cbn [all_chars].
+      rewrite Hd. reflexivity. }
+    assert (Hfr : forall chain, forallb (skipped (l_pkg L)) chain = true ->
+              fr_spec L (chain ++ pre ++ c :: post) (m ++ "." ++ rest) = ((m ++ "." ++ rest)%string, Some cm)).
+    { intros chain Hch. unfold fr_spec.
+      rewrite (resolve_body_dotted _ m rest Hid), (head_module_caller chain pre c post m g cm Hh Hch Hp Hsk Hg Hn).
+      unfold strip_name. rewrite Hs, (strip_lead_noprefix cm _ Hdt Hpre). reflexivity. }
+    destruct e; try destruct He; cbn [call_spec key_of q_spec probe_spec];
+      try (rewrite (Hfr (l_chain L EDecodePre) (Hc2 eq_refl)));
+      rewrite (Hfr _ Hc); cbn [fst snd eval_key]; try reflexivity.
+    destruct (evaluate W ((m ++ "." ++ rest)%string, Some cm)); reflexivity.
+  Qed.
+
+  Lemma evaluate_through_module : forall m n cm dc m' d' o,
+    is_ident m = true -> is_ident n = true ->
+    lookup cm (w_modules W) = Some dc -> lookup m dc = Some (OMod m') ->
+    lookup m' (w_modules W) = Some d' -> lookup n d' = Some o -> not_module o = true ->
+    evaluate W ((m ++ "." ++ n)%string, Some cm) = Ok o.
+  Proof.
+    intros m n cm dc m' d' o Hm Hn Hc Hb Hm' Ho Hno. unfold evaluate.
+    rewrite (split_dots_qualified m n (is_ident_no_dot m Hm)), (split_dots_no_dot n (is_ident_no_dot n Hn)).
+    cbn [forallb]. rewrite Hm, Hn. cbn [andb negb].
+    unfold module_dict. rewrite Hc, Hb. cbn [getattrs getattr]. rewrite Hm', Ho.
+    destruct o; [reflexivity | discriminate].
+  Qed.
+
+  Lemma repaired_caller_head_name : forall h e pre c post m n g cm dc m' d' o,
+    match e with ECodecM | ECodecU | ECodec | EForwardref | EDecodePre | ECodecPost => False | _ => True end ->
+    l_strip_lead L = true -> l_caller_head L = true ->
+    is_ident m = true -> is_ident n = true ->
+    lib_ok L e = true -> forallb (skipped (l_pkg L)) pre = true ->
+    skipped (l_pkg L) c = false -> lookup m (f_globals c) = Some g -> f_gname c = Some cm ->
+    String.prefix (cm ++ ".") (m ++ "." ++ n) = false ->
+    lookup cm (w_modules W) = Some dc -> lookup m dc = Some (OMod m') ->
+    lookup m' (w_modules W) = Some d' -> lookup n d' = Some o -> not_module o = true ->
+    warm true W L h (OCall e (RStr (m ++ "." ++ n)) (pre ++ c :: post)) = ROk [o].
+  Proof.
+    intros h e pre c post m n g cm dc m' d' o He Hs Hh Hm Hn Hl Hp Hsk Hg Hgn Hpre Hc Hb Hm' Ho Hno.
+    rewrite (repaired_caller_head h e pre c post m n g cm He Hs Hh Hm (dotted_text_ident n Hn) Hl Hp Hsk Hg Hgn Hpre).
+    rewrite (evaluate_through_module m n cm dc m' d' o Hm Hn Hc Hb Hm' Ho Hno). reflexivity.
   Qed.
 End Caller.
 
@@ -627,4 +823,35 @@ Lemma repaired_examples :
   warm true W0 L1 [call_a] (OCall EDecode (RStr "Thing") [fc; fmain]) = ROk [cls 1 "mod_a"] /\
   warm true W0 L1 [call_b] (OCall EUnmarshal (RStr "mod_a.Node") [fb; fmain]) = ROk [cls 1 "mod_a"] /\
   warm true W0 L1 [call_b] (OCall EForwardref (RStr "Node") [fa; fb_local; fmain]) = RRef "Node" (Some "mod_a") (Ok (cls 1 "mod_a")).
+Proof. vm_compute. repeat split. Qed.
+
+(* ---- the two later repairs (L2: both; L2_head_pinned: only the first; L0 / L1: neither = the pinned forwardref) ---- *)
+Lemma repaired_mangled_example :
+  cold true W0 L2 (OCall EUnmarshal (RStr "app.webapp.Model") [fc; fmain]) = ROk [cls 7 "app.webapp"] /\
+  strip_lead "app" "app.webapp.Model" = "webapp.Model" /\
+  strip_lead "app" "dict[app.K, xapp.app.V] | app.W" = "dict[K, xapp.app.V] | W".
+Proof. vm_compute. repeat split. Qed.
+
+(* the head rule pinned: `import mod_a as ma` in the calling module, the text "ma.Node" is looked up in a module
+   called ma *)
+Lemma refuted_dotted_head_pinned :
+  cold true W0 L2_head_pinned (OCall EUnmarshal (RStr "ma.Node") [fd; fmain]) = RErr ENameError /\
+  cold true W0 L2 (OCall EUnmarshal (RStr "ma.Node") [fd; fmain]) = ROk [cls 1 "mod_a"] /\
+  lookup "ma" d_mod_d = Some (OMod "mod_a").
+Proof. vm_compute. repeat split. Qed.
+
+(* repaired: where the calling module binds the leading name, that binding wins over the module of that name
+   (`import mod_a as mod_b`): the hypothesis of repaired_qualified about the caller is necessary *)
+Lemma repaired_caller_name_wins :
+  cold true W0 L2 (OCall EUnmarshal (RStr "mod_b.Node") [fd; fmain]) = ROk [cls 1 "mod_a"] /\
+  evaluate W0 ("Node", Some "mod_b") = Ok (cls 2 "mod_b") /\
+  caller_module_binding "typelib" [fd; fmain] "mod_b" = Some "mod_d".
+Proof. vm_compute. repeat split. Qed.
+
+Lemma repaired_qualified_examples :
+  warm true W0 L2 [call_a] (OCall EUnmarshal (RStr "mod_b.Node") [fc; fmain]) = ROk [cls 2 "mod_b"] /\
+  caller_module_binding "typelib" [fc; fmain] "mod_b" = None /\
+  warm true W0 L2 [call_b] (OCall EDecode (RStr "mod_a.Node") [fc; fmain]) = ROk [cls 1 "mod_a"] /\
+  caller_module_binding "typelib" [fc; fmain] "mod_a" = Some "mod_c" /\
+  libs_ok L2 = true /\ l_strip_lead L2 = true /\ l_caller_head L2 = true.
 Proof. vm_compute. repeat split. Qed.
